@@ -6,7 +6,7 @@
    decode), page -> item (teletextPage.parse), first/last time.  The tables (character sets, national option
    positions, Hamming 8/4, parity, bit reversal) are the generated ones (Gen/TtxTables.v).  Definitions only. *)
 From Coq Require Import List ZArith NArith Bool.
-From Astisub Require Import Kit.Base Kit.Str Kit.GoMap Gen.TtxTables Model.TtxRow.
+From Astisub Require Import Kit.Base Kit.Str Kit.GoMap Gen.TtxTables Model.TtxRow Model.TtxHam.
 Import ListNotations.
 Open Scope N_scope.
 
@@ -156,14 +156,21 @@ Definition parse_data (i : str) (pkt : N) (b : pbuf) : res pbuf :=
     Ok (mkPbuf (pb_cd b) (Some p') (pb_done b) (pb_mag b) (pb_page b) (pb_recv b))
   end.
 
-(* parsePacket28And29 *)
+(* parsePacket28And29.  The first triplet is protected by Hamming 24/18 (teletextHamming2418Decode = Model/TtxHam.v,
+   ham2418_dec; tied to the code by the correspondence suites); its three bytes are bit-reversed first, like every byte of
+   the PES payload that is read in teletext bit order *)
+Definition triplet_dec (i : str) : option N :=
+  ham2418_dec (rev8 (N.land (ttx_byte_at 0 i) 255)) (rev8 (N.land (ttx_byte_at 1 i) 255)) (rev8 (N.land (ttx_byte_at 2 i) 255)).
 Definition parse_2829 (i : str) (pkt dc : N) (b : pbuf) : res pbuf :=
   if negb (dc =? 0) && negb (dc =? 4) then Ok b else
   if Nat.ltb (length i) 3 then Ok b else
-  let triplet := N.lor (N.lor (N.shiftl (ttx_byte_at 2 i) 16) (N.shiftl (ttx_byte_at 1 i) 8)) (ttx_byte_at 0 i) in
-  if (pkt =? 28) && (0 <? N.land triplet 15) then Ok b else
-  do d <- (if pkt =? 28 then set_x28 (pb_cd b) triplet else set_m29 (pb_cd b) triplet);
-  Ok (with_cd b d).
+  match triplet_dec i with
+  | None => Ok b
+  | Some triplet =>
+    if (pkt =? 28) && (0 <? N.land triplet 15) then Ok b else
+    do d <- (if pkt =? 28 then set_x28 (pb_cd b) triplet else set_m29 (pb_cd b) triplet);
+    Ok (with_cd b d)
+  end.
 
 (* parsePacket *)
 Definition parse_packet (i : str) (mag pkt : N) (t : Z) (b : pbuf) : res pbuf :=
